@@ -241,7 +241,10 @@ impl InterfaceInner {
         };
 
         #[cfg(feature = "socket-raw")]
-        let handled_by_raw_socket = self.raw_socket_filter(sockets, &ipv6_repr.into(), ip_payload);
+        // Raw sockets get the packet as it arrived: the header goes with its own payload, which
+        // includes a hop-by-hop header when there is one.
+        let handled_by_raw_socket =
+            self.raw_socket_filter(sockets, &ipv6_repr.into(), ipv6_packet.payload());
         #[cfg(not(feature = "socket-raw"))]
         let handled_by_raw_socket = false;
 
